@@ -717,20 +717,19 @@ def execNode : Nat → Node → XM Unit
     | .tagFor key value obj reversed sorted body empty => do
       let fr ← cur
       let parent : Val := (fr.priv.lookup b!"forloop").getD .nil
-      if !(parent.kind == .invalid) && !isLoopRecord parent then xerr "interface conversion" .panic
-      else
-        let parentV : Val := if isLoopRecord parent then parent else .nilptr
-        let child := childOf fr
-        -- the loop's own record is installed per iteration; the iterable and the
-        -- empty branch still see the enclosing loop's forloop
-        withFrame child do
-          let o ← eval fuel obj
-          let items := iterItems o.v reversed sorted
-          if items.length == 0 then
-            match empty with
-            | some eb => execNodes fuel eb
-            | none => pure ()
-          else forLoop fuel key value body parentV items 0 items.length true false
+      -- a `forloop` that is not a loop record (`{% set forloop = 1 %}`) counts as no enclosing loop
+      let parentV : Val := if isLoopRecord parent then parent else .nilptr
+      let child := childOf fr
+      -- the loop's own record is installed per iteration; the iterable and the
+      -- empty branch still see the enclosing loop's forloop
+      withFrame child do
+        let o ← eval fuel obj
+        let items := iterItems o.v reversed sorted
+        if items.length == 0 then
+          match empty with
+          | some eb => execNodes fuel eb
+          | none => pure ()
+        else forLoop fuel key value body parentV items 0 items.length true false
     | .tagIf conds bodies => ifChain fuel conds bodies 0
     | .tagIfchanged id watch thenB elseB => do
       if watch.length == 0 then
